@@ -50,7 +50,7 @@ namespace occa {
 
     void dontUseRefs();
     void addDeviceRef(device *dev);
-    void removeDeviceRef(device *dev);
+    bool removeDeviceRef(device *dev);
     bool needsFree() const;
 
     void addKernelRef(modeKernel_t *kernel);
